@@ -20,8 +20,9 @@ from ..secrun import run_batch
 OTHERS = [[], [0, 2], [1], [1, 1, 0]]     # Others of the spec in LexLt order: <<>> < <<0,2>> < <<1>> < <<1,1,0>>
 
 
-def apply_op(mpc, s, secnum, op, i, v, variant):
-    """apply one edge to seclist s; returns the (secure or public) return value or None"""
+def apply_op(mpc, s, secnum, op, i, v, variant, keep=None):
+    """apply one edge to seclist s; returns the (secure or public) return value or None
+    (keep: the unit-vector keys handed to the list, to verify afterwards that the operation did not modify them)"""
     n = len(s)
 
     def idx(i, length):
@@ -29,7 +30,10 @@ def apply_op(mpc, s, secnum, op, i, v, variant):
             return i
         if variant == 'sec':
             return secnum(i)
-        return [secnum(int(j == i)) for j in range(length)]
+        u = [secnum(int(j == i)) for j in range(length)]
+        if keep is not None:
+            keep.append((u, i, length))
+        return u
     if op == 'get':
         return s[idx(i, n)]
     if op == 'set':
@@ -88,8 +92,9 @@ async def evaluate(mpc, e, idx, arg):
     src = [mpc.input(stype(v), senders=(idx + k) % m) for k, v in enumerate(e['src'])]
     s = mpc.seclist(src, stype)
     rets = []
+    keep = []
     for (op, i, v) in e['ops']:
-        r = apply_op(mpc, s, stype, op, i, v, e['variant'])
+        r = apply_op(mpc, s, stype, op, i, v, e['variant'], keep)
         if isinstance(r, tuple):
             await r[1]
             r = None
@@ -104,6 +109,11 @@ async def evaluate(mpc, e, idx, arg):
                 v -= 11           # field elements are unsigned: find() returns -1 = 10 in GF(11)
             rets.append(v)
     content = [await mpc.output(x) for x in list(s)]
+    # a caller's key (secret unit vector) must be left as it was
+    for (u, i, length) in keep:
+        got = [int(round(float(x))) if not hasattr(x, 'value') else int(x.value) for x in await mpc.output(list(u))] if len(u) == length else None
+        if got != [int(j == i) for j in range(length)]:
+            rets.append(-777)          # marks "key changed by the operation": can never equal the specification's return values
     return [[int(round(float(c))) if not hasattr(c, 'value') else int(c.value) for c in content], rets]
 
 
@@ -177,6 +187,8 @@ def run(ctx):
                     got = results[p][i]
                     if got != c['exp']:
                         op = c['ops'][0][0] if not c.get('walk') else 'history'
+                        if isinstance(got, list) and len(got) == 2 and -777 in got[1]:
+                            op += ':key-changed-by-operation'
                         ctx.violation(f'C31:{op}:{c["variant"]}:{c["stype"]}', {'case': {k: c[k] for k in ('src', 'ops', 'variant', 'stype')},
                                                                                  'expected': c['exp'], 'got': got, 'party': p, 'config': tag})
                         break
